@@ -8,6 +8,9 @@ replay: each block is spelled out as text and given to the REAL EquationParser.P
         its comment-free twin; the observed lists / parameters / messages of both are logged
 trace:  TLC (Parser_Trace) recomputes the lists from the line forms with the spec's LineOp and judges
         the property clauses; class assignment = the spec's, with/without comments identical
+reuse:  Parser!Begin - ParseString called again on the SAME parser object: TLC enumerates all pairs of blocks
+        (block B after block A) over the re-use alphabet; the driver lets one real EquationParser object parse
+        them in turn; what each call reports is judged against the block alone (Block events with again = TRUE)
 pairs:  observed-vs-observed runs that differ in free text only: (a) solvable blocks solved by
         EquationSolver with and without hostile trailing comments, (b) model SIM built with plain
         and with hostile long names / descriptions; same lists and identical series are required
@@ -34,9 +37,11 @@ replaced by plain words; if the violation disappears the signature is
 otherwise, if it disappears when also the free text with line-separator characters (classes sep*) is
 replaced: 'line-separator-character-in-free-text';
 otherwise: 'default-t-added-although-user-defines-time-axis' when the block defines t / t_minus_1 and
-the observed simultaneous list nevertheless holds t = k; else the signature spells the line forms.  Model events: 'model-free-text-not-inert:<classes>' (the twin
+the observed simultaneous list nevertheless holds t = k; else the signature spells the line forms.  Several calls on one object: 'state-carried-over-from-an-earlier-ParseString-call'
+when every block is judged fine on a fresh parser object.  Model events: 'model-free-text-not-inert:<classes>' (the twin
 differs in the free texts only).
 """
+import concurrent.futures
 import json
 import random
 import re
@@ -49,6 +54,7 @@ DRIFT = {'o': 'list_or_message_order'}
 SIG_MARKER = 'marker-word-in-trailing-comment'
 SIG_TIME = 'default-t-added-although-user-defines-time-axis'
 SIG_SEP = 'line-separator-character-in-free-text'
+SIG_REUSE = 'state-carried-over-from-an-earlier-ParseString-call'
 SIG_MODEL = 'model-free-text-not-inert:'       # + the classes of the free texts of the model
 TAG_CLASSES = ('exoU', 'exoM', 'tagline', 'pmax', 'ptol')
 MARKER_WORD_CLASSES = ('exo', 'exoU', 'exoM', 'tagline')
@@ -172,10 +178,11 @@ def _pairs(lst):
     return [{'var': str(v), 'rhs': _norm(r)} for v, r in lst]
 
 
-def observe(text):
-    """ParseString on the real EquationParser -> projection (uniformly typed)."""
+def observe(text, parser=None):
+    """ParseString on the real EquationParser (a fresh one, or the given object once more) -> projection
+    (uniformly typed)."""
     from sfc_models.equation_parser import EquationParser
-    p = EquationParser()
+    p = parser if parser is not None else EquationParser()
     try:
         msg = p.ParseString(text)
     except Exception as e:
@@ -200,7 +207,75 @@ def execute(forms, variant=0):
     """One block on the real code: the Block event of the trace."""
     text = render_block(forms, variant)
     twin = render_block([no_comment(f) for f in forms], variant)
-    return {'ev': 'Block', 'lines': forms, 'obs': observe(text), 'twin': observe(twin)}
+    return {'ev': 'Block', 'again': False, 'lines': forms, 'obs': observe(text), 'twin': observe(twin)}
+
+
+def decode_blocks(code):
+    """'A-lines//B-lines' (MC_Parser!Emit with MaxBlocks > 1) -> list of blocks (lists of form dicts)"""
+    return [decode(part) for part in code.split('//')]
+
+
+def execute_reuse(blocks, variant=0):
+    """Parser!Begin: ONE EquationParser object parses the blocks one after the other (and a second object
+    their comment-free twins); one Block event per call, `again` from the second call on."""
+    from sfc_models.equation_parser import EquationParser
+    p, q = EquationParser(), EquationParser()
+    events = []
+    for n, forms in enumerate(blocks):
+        text = render_block(forms, variant)
+        twin = render_block([no_comment(f) for f in forms], variant)
+        events.append({'ev': 'Block', 'again': n > 0, 'lines': forms, 'obs': observe(text, p),
+                       'twin': observe(twin, q)})
+    return events
+
+
+def reuse_signature(blocks):
+    return 'calls:' + ' // '.join(generic_signature(b)[len('lines:'):] for b in blocks)
+
+
+def judge_reuse_gen(rep, items):
+    """items: list of (blocks, variant): several ParseString calls on one parser object."""
+    traces = []
+    for i, (blocks, variant) in enumerate(items):
+        traces.append((i, execute_reuse(blocks, variant)))
+        rep.add_case({'blocks': blocks, 'variant': variant}, any(nontrivial(b) for b in blocks))
+    verdicts = yield traces
+    rep.traces += len(traces)
+    bad = []
+    for i, (blocks, variant) in enumerate(items):
+        kind, letters = split_verdict(verdicts[i])
+        if kind == 'drift':
+            for c in letters:
+                rep.add_drift(DRIFT.get(c, c), {'blocks': blocks, 'variant': variant, 'observed': traces[i][1]})
+        elif kind == 'property':
+            bad.append((i, letters))
+    if not bad:
+        return
+    # differential diagnosis: is every block judged fine when a fresh parser object parses it?
+    fresh = []
+    for i, _ in bad:
+        for b in items[i][0]:
+            fresh.append((len(fresh), [execute(b, items[i][1])]))
+    fv = yield fresh
+    n = 0
+    for i, letters in bad:
+        blocks, variant = items[i]
+        ok_fresh = True
+        for _b in blocks:
+            ok_fresh = ok_fresh and not fv[n].startswith('property')
+            n += 1
+        sig = SIG_REUSE if ok_fresh else reuse_signature(blocks)
+        case = {'blocks': blocks, 'variant': variant, 'texts': [render_block(b, variant) for b in blocks],
+                'observed': traces[i][1]}
+        for c in letters:
+            cnt = _filed.setdefault((id(rep), c, sig), [0])
+            cnt[0] += 1
+            if cnt[0] <= 20:
+                rep.violate(CLAUSE.get(c, c), sig, case,
+                            detail='one parser object, ParseString calls %r -> last call observed %s' % (
+                                case['texts'], json.dumps(traces[i][1][-1]['obs'])[:260]))
+            else:
+                rep.violate(CLAUSE.get(c, c), sig, {'blocks': blocks, 'variant': variant})
 
 
 # --------------------------------------------------------------------------------------
@@ -234,7 +309,7 @@ def nontrivial(forms):
 
 def _validate(traces, rep, tag='c14'):
     verdicts, st, tr = core.validate_traces('MC_Parser_Trace', 'MC_Parser_Trace.cfg', traces, tag=tag,
-                                            chunk=1500)
+                                            chunk=3000)
     rep.extra['trace_validation_states'] = rep.extra.get('trace_validation_states', 0) + st
     return verdicts
 
@@ -247,7 +322,48 @@ def split_verdict(v):
 _filed = {}
 
 
+def run_together(rep, gens, tag='c14'):
+    """The judge_*_gen generators yield lists of (local tid, events) to be validated and are sent back
+    {local tid: verdict}.  The requests of all generators of one round go to TLC as ONE batch."""
+    active = []
+    for g in gens:
+        try:
+            active.append((g, next(g)))
+        except StopIteration:
+            pass
+    while active:
+        batch, spans = [], []
+        for _g, req in active:
+            base = len(batch)
+            spans.append((base, len(req)))
+            batch.extend([(base + n, evs) for n, (_tid, evs) in enumerate(req)])
+        verdicts = _validate(batch, rep, tag=tag) if batch else {}
+        nxt = []
+        for (g, req), (base, n) in zip(active, spans):
+            try:
+                nxt.append((g, g.send({req[k][0]: verdicts[base + k] for k in range(n)})))
+            except StopIteration:
+                pass
+        active = nxt
+
+
 def judge_blocks(rep, items):
+    run_together(rep, [judge_blocks_gen(rep, items)])
+
+
+def judge_reuse(rep, items):
+    run_together(rep, [judge_reuse_gen(rep, items)], tag='c14reuse')
+
+
+def judge_pairs(rep, cases):
+    run_together(rep, [judge_pairs_gen(rep, cases)], tag='c14pair')
+
+
+def judge_models(rep, items):
+    run_together(rep, [judge_models_gen(rep, items)], tag='c14model')
+
+
+def judge_blocks_gen(rep, items):
     """items: list of (forms, variant).  Executes, validates with TLC, files violations / drift."""
     traces = []
     for i, (forms, variant) in enumerate(items):
@@ -256,7 +372,7 @@ def judge_blocks(rep, items):
         case = {'behaviour': forms, 'variant': variant}
         rep.add_case(dict(case, text=render_block(forms, variant), observed=ev) if len(rep.samples) < 3 else case,
                      nontrivial(forms))
-    verdicts = _validate(traces, rep)
+    verdicts = yield traces
     rep.traces += len(traces)
     bad = []
     for i, (forms, variant) in enumerate(items):
@@ -273,17 +389,16 @@ def judge_blocks(rep, items):
         return
     # differential diagnosis: does the violation go away when the marker word leaves the free text?
     # if not: when the line-separator characters (and the marker word) leave it?
-    def cure_batch(idx, classes, tag):
+    def cure_batch(idx, classes):
         out = {}
         if idx:
-            cv = _validate([(n, [execute(cured(items[i][0], classes), items[i][1])]) for n, i in enumerate(idx)],
-                           rep, tag=tag)
+            cv = yield [(n, [execute(cured(items[i][0], classes), items[i][1])]) for n, i in enumerate(idx)]
             for n, i in enumerate(idx):
                 out[i] = not cv[n].startswith('property')
         return out
-    cure_marker = cure_batch([i for i, _ in bad if has_marker_text(items[i][0])], MARKER_WORD_CLASSES, 'c14cure')
-    cure_sep = cure_batch([i for i, _ in bad if has_sep_text(items[i][0]) and not cure_marker.get(i)],
-                          MARKER_WORD_CLASSES + SEP_CLASSES, 'c14cure')
+    cure_marker = yield from cure_batch([i for i, _ in bad if has_marker_text(items[i][0])], MARKER_WORD_CLASSES)
+    cure_sep = yield from cure_batch([i for i, _ in bad if has_sep_text(items[i][0]) and not cure_marker.get(i)],
+                                     MARKER_WORD_CLASSES + SEP_CLASSES)
     for i, letters in bad:
         forms, variant = items[i]
         ev = traces[i][1][0]
@@ -528,7 +643,7 @@ def pair_signature(c):
     return 'model:' + ','.join('%s/%s' % (k, v) for k, v in sorted(c[1].items()) if v != 'none')
 
 
-def judge_pairs(rep, cases):
+def judge_pairs_gen(rep, cases):
     traces = []
     info = []
     for i, c in enumerate(cases):
@@ -537,21 +652,21 @@ def judge_pairs(rep, cases):
         info.append(case)
         rep.add_case(case if c[0] == 'model' else {k: case[k] for k in ('pair', 'template', 'behaviour', 'variant')},
                      True)
-    verdicts = _validate(traces, rep, tag='c14pair')
+    verdicts = yield traces
     rep.traces += len(traces)
     bad = [i for i in range(len(cases)) if split_verdict(verdicts[i])[0] == 'property']
     # differential diagnosis as for blocks
     def cure_batch(idx, classes):
         out = {}
         if idx:
-            cv = _validate([(n, [run_pair(pair_cured(cases[i], classes))[0]]) for n, i in enumerate(idx)], rep,
-                           tag='c14cure')
+            cv = yield [(n, [run_pair(pair_cured(cases[i], classes))[0]]) for n, i in enumerate(idx)]
             for n, i in enumerate(idx):
                 out[i] = not cv[n].startswith('property')
         return out
-    cure_marker = cure_batch([i for i in bad if pair_has(cases[i], MARKER_WORD_CLASSES)], MARKER_WORD_CLASSES)
-    cure_sep = cure_batch([i for i in bad if pair_has(cases[i], SEP_CLASSES) and not cure_marker.get(i)],
-                          MARKER_WORD_CLASSES + SEP_CLASSES)
+    cure_marker = yield from cure_batch([i for i in bad if pair_has(cases[i], MARKER_WORD_CLASSES)],
+                                        MARKER_WORD_CLASSES)
+    cure_sep = yield from cure_batch([i for i in bad if pair_has(cases[i], SEP_CLASSES) and not cure_marker.get(i)],
+                                     MARKER_WORD_CLASSES + SEP_CLASSES)
     for i in bad:
         c = cases[i]
         letters = split_verdict(verdicts[i])[1]
@@ -645,7 +760,7 @@ def execute_model(desc, variant):
     return ev, exc_b, text_b
 
 
-def judge_models(rep, items):
+def judge_models_gen(rep, items):
     """items: list of (desc, variant)"""
     traces, extra = [], []
     for i, (desc, variant) in enumerate(items):
@@ -653,7 +768,7 @@ def judge_models(rep, items):
         traces.append((i, [ev]))
         extra.append((exc, text))
         rep.add_case({'model': desc, 'variant': variant}, len(desc) > 0)
-    verdicts = _validate(traces, rep, tag='c14model')
+    verdicts = yield traces
     rep.traces += len(traces)
     for i, (desc, variant) in enumerate(items):
         kind, letters = split_verdict(verdicts[i])
@@ -673,9 +788,14 @@ def judge_models(rep, items):
                             marker[1][:300] if len(marker) > 1 else ''))
 
 
-def model_behaviours(rep):
-    cfg = 'MC_ModelText_quick.cfg' if rep.tier == 'quick' else 'MC_ModelText_thorough.cfg'
-    res = core.tlc('MC_ModelText', cfg, workers=1, tag='c14m', want_printed=False, heap='2g')
+def model_cfg(rep):
+    return 'MC_ModelText_quick.cfg' if rep.tier == 'quick' else 'MC_ModelText_thorough.cfg'
+
+
+def model_behaviours(rep, res=None):
+    cfg = model_cfg(rep)
+    if res is None:
+        res = core.tlc('MC_ModelText', cfg, workers=1, tag='c14m', want_printed=False, heap='2g')
     if res.violated:
         raise core.MachineryError('spec invariant %s violated in %s' % (res.violated, cfg))
     rep.add_tlc(res, 'exhaustive ' + cfg)
@@ -706,27 +826,50 @@ def run(rep):
                 'as sequences of line forms (kind x variable/right-hand side x trailing-comment class x spacing), '
                 'each spelled out in the listed text variants (two spellings of the comment texts x the non-newline '
                 'line-separator characters FF VT FS GS RS NEL U+2028 U+2029 CR for the sep* comment classes) and parsed by the real EquationParser together with '
-                'its comment-free twin; plus solve pairs / model pairs (plain vs hostile free text); distinct = '
+                'its comment-free twin; pairs of blocks parsed one after the other by ONE parser object; plus solve pairs / model pairs (plain vs hostile free text); distinct = '
                 'distinct (block, variant) JSON; non-trivial = the block has at least one well-formed one-"=" line')
     rep.exhaustive = True
     rep.assumptions = ['right-hand sides are compared as text up to white space (the parser never rewrites them)',
                        'comment-only lines that merely mention the marker word are not generated; variable names '
                        'never contain the marker word',
                        'TLC 1.8 / tla2tools; batched trace validation with Parser_Trace']
+    reuse_cfg = 'MC_Parser_quick5.cfg' if rep.tier == 'quick' else 'MC_Parser_thorough5.cfg'
+    plan.append((reuse_cfg, (0, 1)))
+
+    def run_tlc(cfg):
+        if cfg.startswith('MC_ModelText'):
+            return core.tlc('MC_ModelText', cfg, workers=1, tag='c14m', want_printed=False, heap='2g')
+        return core.tlc('MC_Parser', cfg, workers=(4 if 'thorough' in cfg else 1), tag='c14', want_printed=False,
+                        heap='4g')
+    # the small instances run side by side (one worker each); the large ones one after the other
+    small = [cfg for cfg, _v in plan if 'thorough' not in cfg or cfg in ('MC_Parser_thorough3.cfg',
+                                                                          'MC_Parser_thorough4.cfg')]
+    small.append(model_cfg(rep))
+    results = {}
+    with concurrent.futures.ThreadPoolExecutor(max_workers=7) as ex:
+        for cfg, res in zip(small, ex.map(run_tlc, small)):
+            results[cfg] = res
     seen = set()
+    batch = []
+    multi = []
     for cfg, variants in plan:
-        res = core.tlc('MC_Parser', cfg, workers=(4 if 'thorough' in cfg else 1), tag='c14', want_printed=False,
-                       heap='4g')
+        res = results[cfg] if cfg in results else run_tlc(cfg)
         if res.violated:
             raise core.MachineryError('spec invariant %s violated in %s' % (res.violated, cfg))
         rep.add_tlc(res, 'exhaustive ' + cfg)
         codes = behaviours_of(res)
         if not codes:
             raise core.MachineryError('TLC emitted no behaviours for ' + cfg)
-        # the state graph is a tree and every unfinished block has exactly one Finish successor
+        # every unfinished block has exactly one Finish successor, and no two behaviours share a state
         if 2 * len(set(codes)) != res.distinct:
             raise core.MachineryError('%s: read %d distinct behaviours from TLC output, %d states' % (
                 cfg, len(set(codes)), res.distinct))
+        rep.extra.setdefault('behaviours_emitted', {})[cfg] = len(codes)
+        if cfg == reuse_cfg:
+            # single-call behaviours of this instance are covered by the other instances
+            multi = [(decode_blocks(c), v) for c in codes if '//' in c for v in variants]
+            rep.extra['reuse_behaviours'] = len(multi)
+            continue
         items = []
         for n, code in enumerate(codes):
             for variant in ((2 * (n % len(SEPS)) + 1,) if variants == 'rot' else variants):
@@ -734,20 +877,26 @@ def run(rep):
                 if k not in seen:
                     seen.add(k)
                     items.append((decode(code), variant))
-        rep.extra.setdefault('behaviours_emitted', {})[cfg] = len(codes)
+        if len(items) + len(batch) <= 40000:
+            batch.extend(items)          # judged together with the other small instances (one TLC batch)
+            continue
         for a in range(0, len(items), 40000):
             judge_blocks(rep, items[a:a + 40000])
+    # the small instances and the two-call behaviours go to TLC as one batch
+    gens = [judge_blocks_gen(rep, batch)] if batch else []
+    gens += [judge_reuse_gen(rep, multi[a:a + 40000]) for a in range(0, len(multi), 40000)]
+    run_together(rep, gens)
     # observed-vs-observed pairs need a reference run that works; when it does not and the blocks above
     # already falsified the property, that result stands (exit 1) and the pairs are skipped
     try:
         cases = pair_cases(rep)
-        judge_pairs(rep, [c for c in cases if c[0] == 'solve'])
-        rep.extra['solve_pairs'] = sum(1 for c in cases if c[0] == 'solve')
         check_sim_reference()
-        judge_pairs(rep, [c for c in cases if c[0] == 'model'])
+        items = model_behaviours(rep, results[model_cfg(rep)])
+        run_together(rep, [judge_pairs_gen(rep, [c for c in cases if c[0] == 'solve']),
+                           judge_pairs_gen(rep, [c for c in cases if c[0] == 'model']),
+                           judge_models_gen(rep, items)], tag='c14pair')
+        rep.extra['solve_pairs'] = sum(1 for c in cases if c[0] == 'solve')
         rep.extra['model_pairs'] = sum(1 for c in cases if c[0] == 'model')
-        items = model_behaviours(rep)
-        judge_models(rep, items)
         rep.extra['model_text_builds'] = len(items)
     except core.MachineryError as e:
         if not rep.violations:
@@ -761,7 +910,10 @@ def replay(path):
         data = json.load(f)
     case = data['case']
     rep = core.Report('C14', 'quick', data.get('seed', 0))
-    if 'model' in case:
+    if 'blocks' in case:
+        judge_reuse(rep, [(case['blocks'], case.get('variant', 0))])
+        print(json.dumps({'observed_now': execute_reuse(case['blocks'], case.get('variant', 0))}, indent=1)[:3000])
+    elif 'model' in case:
         judge_models(rep, [(case['model'], case.get('variant', 0))])
         print(json.dumps({'observed_now': execute_model(case['model'], case.get('variant', 0))[0]}, indent=1)[:3000])
     elif 'pair' in case:
